@@ -1,3 +1,5 @@
 //! Glue between TLC-generated cases and the real glas crates.
 pub mod lexis;
+pub mod programs;
 pub mod util;
+pub mod workspace;
